@@ -186,7 +186,7 @@ PROPS = {
         "verus": ["conn", "copy", "chunked"],
         "verus_thorough": [],
         "kani": ["c05"],
-        "witness": ["cconn"],
+        "witness": ["c08", "cconn"],
         "assumptions": ["as C05", "assumed write_all contract: on Err a prefix of the slice was appended"],
         "not_covered": ["body source faults (file missing / unreadable / shorter than declared)", "handle_http_conn's `write_response(&e.into())` + shutdown_write branch"],
     },
@@ -319,7 +319,7 @@ PROPS = {
                       "Not covered: target -> url::Url (path / query), order of fields and line splitting in try_read (iterator chain), bare LF.",
         "verus": ["parse", "head"],
         "verus_thorough": [],
-        "kani": [],
+        "kani": ["c02"],
         "witness": "c02",
         "regex": [
             {"src": "src/head.rs", "item": "impl Head / fn parse_header_line", "kind": "field", "groups": 2,
